@@ -10,6 +10,9 @@ CHECKS = {
  "C01": ("bounded-exhaustive enumeration of programs (scope grammar, parameter-binding tables, builtin application tables) against a definitional reference interpreter",
          "every term of the scope/closure/assignment grammar up to a node bound in 3 contexts, every formals list x argument list x call style, and every covered builtin x argument tuple over the value alphabet, is rendered to source text and evaluated by both the independent definitional interpreter (verif/mc/ri, written from docs/lang.md and the builtin docstrings) and the real interpreter; value, error condition and stderr transcript must agree",
          "the reference interpreter is the trusted base; builtins it does not define are outside the claim (covered names are listed in the evidence); zones the documentation leaves open are marked unspecified and not compared; size-bounded"),
+ "C02": ("bounded-exhaustive enumeration of terminal-position nestings x recursion topology x argument style x iteration counts; three differential relations between configurations of the real interpreter",
+         "every sequence of up to 2 (quick) / 3 (thorough) of the 15 terminal positions x {self, 2-cycle, 3-cycle} x {accumulator, &rest, &key} x {defun, labels} x error modes, every blocking boundary (running macro body, handler-bind, ignore-errors, nested load) and non-tail position inserted at every level, for iteration counts up to 1000; checked: transparency (value, output, condition identical with elimination on, off via a dormant debugger, and with a profiler), constant stack (maximal stack height over every evaluation step EQUAL for N=10,100,1000), never collapsed (exactly N blocker frames at the base case, innermost handler catches)",
+         "no expected values: relations between runs of the real interpreter; stack height is sampled at every evaluation step through the per-step context; depth-3 shapes run N=1000 in fewer configurations (recorded in bounds)"),
  "C04": ("exhaustive fault-space sweep (every step budget, every cancellation index, every height/nesting/tail/macro limit) over a bounded program grammar, with per-step invariants",
          "for every program of the limit grammar up to a node bound the complete fault space is enumerated: budget n for every n in 1..N+1, cancellation at every step, every physical-height and nesting limit up to the observed maximum+2, tail-iteration and macro-expansion limits; checked: exact-prefix rule on the probe trace, identical outcome when the budget suffices, bound never exceeded at any step, ordinary error, refill across all 12 entry points, runtime usable afterwards",
          "steps are observed through Runtime.Steps(); the per-step monitor is a custom context.Context whose Err() the evaluator calls once per step; sleep cancellation uses a 30 s watchdog on a 30 min sleep"),
